@@ -250,8 +250,8 @@ func (x *Exec) run() {
 			x.doReturn(out.normal, nil, fi.Decl.Body.Rbrace)
 		}
 	}
-	if len(out.breaks) > 0 || len(out.continues) > 0 {
-		x.unsupported(fi.Decl, "break/continue escaped function body")
+	if len(out.breaks) > 0 || len(out.continues) > 0 || len(out.gotos) > 0 {
+		x.unsupported(fi.Decl, "break/continue/goto escaped function body (only forward gotos within a function are translated)")
 	}
 }
 
@@ -433,9 +433,10 @@ func (x *Exec) frameObligation(st *State, label string, pos token.Pos) {
 }
 
 type frameScope struct {
-	label   string
-	targets []assignTarget
-	src     string
+	label     string
+	targets   []assignTarget
+	protected []assignTarget
+	src       string
 }
 
 // recordWrite: a store to cell key of heap hn. For every active frame scope
@@ -445,14 +446,24 @@ func (x *Exec) recordWrite(st *State, hn string, key *Term, newCell, oldCell *Te
 	if len(x.scopes) == 0 {
 		return
 	}
-	if _, _, exact := st.exactAlloc(key); exact {
-		return // allocated by this function on this path
-	}
+	_, _, exactKey := st.exactAlloc(key)
 	pos := token.NoPos
 	if n != nil {
 		pos = n.Pos()
 	}
 	for _, sc := range x.scopes {
+		if exactKey {
+			// allocated by this function on this path: only protected cells matter
+			relevant := false
+			for _, t := range sc.protected {
+				if t.heap == hn && !st.distinct(key, t.key) {
+					relevant = true
+				}
+			}
+			if !relevant {
+				continue
+			}
+		}
 		alts := []*Term{Ge(key, x.entry0Alloc())}
 		if strings.HasPrefix(hn, "H_") {
 			alts = append(alts, Eq(key, IntLit(0))) // region 0 is the nil slice: it has no cells
@@ -476,8 +487,13 @@ func (x *Exec) recordWrite(st *State, hn string, key *Term, newCell, oldCell *Te
 			}
 		}
 		goal := Or(alts...)
-		if isLit(goal, "true") {
+		if isLit(goal, "true") && len(sc.protected) == 0 {
 			continue
+		}
+		for _, t := range sc.protected {
+			if t.heap == hn {
+				goal = And(goal, Not(Eq(key, t.key)))
+			}
 		}
 		lab := fmt.Sprintf("%sw%d", sc.label, x.nextOrd("frame:"+sc.label))
 		x.oblige(st, "frame", lab, goal, pos, sc.src)
@@ -490,7 +506,7 @@ func (x *Exec) pushLoopScope(lc *LoopContract, ord int, pre *State, pos token.Po
 		return func() {}
 	}
 	env := x.invEnv(pre, pos, nil)
-	sc := &frameScope{label: fmt.Sprintf("loop%d:", ord), targets: x.assignTargets(env, lc.Modifies), src: "loop modifies"}
+	sc := &frameScope{label: fmt.Sprintf("loop%d:", ord), targets: x.assignTargets(env, lc.Modifies), protected: x.assignTargets(env, lc.Preserves), src: "loop modifies / preserves"}
 	x.scopes = append(x.scopes, sc)
 	return func() { x.scopes = x.scopes[:len(x.scopes)-1] }
 }
